@@ -600,10 +600,11 @@ where
     fn execute(&self, _problem: &P, state: &mut State<P>) -> ExecResult<()> {
         let mut populations = state.populations_mut();
         for solution in populations.current_mut().as_solutions_mut() {
-            let [start, end]: [_; 2] = (0..solution.len())
+            let [i, j]: [_; 2] = (0..solution.len())
                 .choose_multiple(&mut *state.random_mut(), 2)
                 .try_into()
                 .unwrap();
+            let (start, end) = (i.min(j), i.max(j));
             solution[start..end].reverse();
         }
         Ok(())
